@@ -9,7 +9,7 @@
     [vcard_decoder_panics s]: the third-party vCard decoder, which the carddav client calls
     unguarded, panics on a text of this response (never observed; a panic of go-ical, which
     does occur, is turned into an error by the caldav client since the repair c4d1d95). *)
-From GW Require Import Base ClientTotal ClientTotalProofs.
+From GW Require Import Base ClientTotal ClientTotalProofs ClientAgree.
 
 (** No client method panics, whatever the status, the headers and the body.
     Partial: the parsers outside /repo's decision logic (encoding/xml's tokenizer, mime,
@@ -107,3 +107,51 @@ Theorem C14_agree_implies_spec_ok : forall m path s o,
   model_agrees m path s o = true -> spec_ok m path s o = true.
 Proof. exact agree_implies_spec_ok_kf. Qed.
 Print Assumptions C14_agree_implies_spec_ok.
+
+(** The C14 model and the C05 model (DavClient.v) of webdav.Client describe the same functions:
+    for every codec record [X], backend [fs], endpoint and operation of DavClient.run_op
+    (Stat, ReadDir, Open, Create, RemoveAll, Mkdir, Copy, Move), [run] on the answer
+    DavClient's server model gives — written as a script by [embed] — ends as DavClient's client
+    model does: the same resources are handed out (paths of its FileInfos), an error carries the
+    code DavClient reports (0 = not an HTTPError). *)
+Theorem C14_agrees_with_dav_client_model : forall X mt fs ep o path,
+  out_rel (snd (DavClient.run_op X fs ep o))
+          (run (meth_of o) path (embed X mt (dav_answer X fs ep o))).
+Proof. exact agrees_with_dav_client_model. Qed.
+Print Assumptions C14_agrees_with_dav_client_model.
+
+(** The same on ANY DavClient answer, not only those its server model produces: the
+    multi-status decodes to the same responses, and Response.DecodeProp / fileInfoFromResponse
+    read every entry alike. *)
+Theorem C14_dav_client_decoding_agrees : forall X,
+  (forall l, dec_multistatus (ms_tree X l) =
+             match DavClient.decode_ms X l with Some ds => Some (map (emb_d X) ds) | None => None end) /\
+  (forall A d n (dec : xtree -> option A),
+     decode_prop (emb_d X d) (qn n) dec =
+     match DavClient.decode_prop d n with
+     | Ok v => match dec (prop_elem X (n, v)) with Some a => COk a | None => CErr EOther end
+     | Err c => CErr (EHttp c None)
+     | Panic => CPanic
+     end) /\
+  (forall d, rel (fun i p => p = DavClient.i_path i) (DavClient.file_info_from_response X d) (file_info (emb_d X d))).
+Proof. exact dav_client_decoding_agrees. Qed.
+Print Assumptions C14_dav_client_decoding_agrees.
+
+(** The C14 model and the C10 model (Objects.v) of the object-list readers
+    (decodeCalendarObjectList / decodeAddressList behind QueryCalendar, MultiGetCalendar,
+    QueryAddressBook, MultiGetAddressBook): on a 207 answer whose multi-status decodes — in
+    ClientTotal — to the responses [rs] C10 decoded (written over by [o_emb], the property values
+    annotated with what C10's codecs make of their text), both end alike: the same object paths
+    are handed out, an HTTPError has the same code, any other error is any other error.
+    Partial: the two decoders from the element tree to the responses (ObjXml.dec_multistatus
+    filters the children per field, ClientTotal.dec_multistatus folds over them; different tree
+    types) are not related here — the hypothesis [spec_ms h = Some (map (o_emb cd fl) rs)] stands
+    for that step. *)
+Theorem C14_agrees_with_objects_model_partial : forall cd fl m path h rs tok,
+  In m (o_meths fl) -> h_status h = 207%N -> spec_ms h = Some (map (o_emb cd fl) rs) ->
+  (forall r, In r rs -> o_codes_ok r) ->
+  o_rel (fun vs v => v = VPaths (map Objects.v_path vs))
+        (Objects.decode_object_list cd fl {| ObjXml.ms_responses := rs; ObjXml.ms_sync_token := tok |})
+        (run m path (Resp h)).
+Proof. exact agrees_with_objects_model. Qed.
+Print Assumptions C14_agrees_with_objects_model_partial.
